@@ -163,6 +163,55 @@ def run(ctx, report):
         for k in case["kinds"]:
             report.count("dtype:" + k)
         shutil.rmtree(path, ignore_errors=True) if os.path.isdir(path) else (os.path.exists(path) and os.remove(path))
+    feature_cases(ctx, report)
+
+
+def feature_cases(ctx, report):
+    """frame shapes the option lattice does not reach: multi-level COLUMN labels, JSON-encoded objects, fixed-width text"""
+    import fastparquet
+    from .gen_tables import canon_cell
+    frames = []
+    mi = pd.DataFrame(np.arange(18, dtype="int64").reshape(6, 3),
+                      columns=pd.MultiIndex.from_tuples([("a", "x"), ("a", "y"), ("b", "z")], names=["l0", "l1"]))
+    mi[("b", "s")] = ["p", None, "q", "r", None, "t"]
+    frames.append(("multi-level column labels", mi, {"row_group_offsets": [0, 2, 4]}))
+    frames.append(("multi-level column labels, hive", mi, {"row_group_offsets": [0, 3], "file_scheme": "hive"}))
+    js = pd.DataFrame({"j": [{"a": 1}, [1, 2], None, "s", {"b": [1, {"c": None}]}, 7], "t": ["ab", "cd", "ef", "gh", "ij", "kl"]})
+    frames.append(("json objects + fixed-width text", js, {"object_encoding": {"j": "json", "t": "utf8"}, "fixed_text": {"t": 2}, "row_group_offsets": [0, 4]}))
+    for name, df, opts in frames:
+        path = os.path.join(ctx.workdir("c01"), "feature")
+        shutil.rmtree(path, ignore_errors=True)
+        if os.path.isfile(path):
+            os.remove(path)
+        rec = {"check": "roundtrip", "feature": name, "rows": len(df), "opts": {k: str(v) for k, v in opts.items()}}
+        ctx.crumb(rec)
+        probs = []
+        try:
+            fastparquet.write(path, df, **opts)
+        except Exception as e:  # noqa
+            report.count("write-refused:" + canon_err(e))
+            continue
+        try:
+            got = fastparquet.ParquetFile(path).to_pandas()
+            if list(got.columns) != list(df.columns) or list(got.columns.names) != list(df.columns.names):
+                probs.append(f"column labels {list(df.columns)} / level names {list(df.columns.names)} came back as {list(got.columns)} / {list(got.columns.names)}")
+            elif len(got) != len(df):
+                probs.append(f"{len(got)} rows read, {len(df)} written")
+            else:
+                for c in df.columns:
+                    a = [canon_cell(v) if canon_cell(v) != ("nan",) else ("null",) for v in df[c].astype(object).tolist()]
+                    b = [canon_cell(v) if canon_cell(v) != ("nan",) else ("null",) for v in got[c].astype(object).tolist()]
+                    if a != b:
+                        i = next(k for k, (x, y) in enumerate(zip(a, b)) if x != y)
+                        probs.append(f"column {c!r} row {i}: {b[i]} read, {a[i]} written")
+                        break
+        except Exception as e:  # noqa
+            probs.append("read raised after a successful write: " + canon_err(e) + " " + str(e)[:100])
+        if probs:
+            report.violation({**rec, "what": "; ".join(probs)[:400], "sig": "rt:feature:" + name[:20]})
+        report.case(("feature", name), True)
+        report.count("feature:" + name)
+        shutil.rmtree(path, ignore_errors=True) if os.path.isdir(path) else (os.path.exists(path) and os.remove(path))
 
 
 def search(ctx, report):
